@@ -97,6 +97,15 @@ def gen_model(rng, max_rows=30, big=False):
     nrows = rng.wpick([(1, 0), (2, 1), (5, rng.randrange(2, max_rows + 1))])
     # 1951 .. 2050 so that the two digit year convention (yr > 50 -> 19xx) round trips
     t0 = rng.pick([1_600_000_000, 946_684_800, 1_300_000_000, 86_400 * 365 * 2, 2_000_000_000]) + rng.randrange(0, 10 ** 6)
+    if rng.chance(0.3):
+        # calendar boundaries: leap days (2000 is a leap year, 1900 is not), century and pivot years of the two digit convention,
+        # month ends, midnight; the rows run across the boundary
+        import calendar
+        y, mo, d = rng.pick([(2000, 2, 29), (2000, 2, 29), (2004, 2, 29), (1996, 2, 29), (2000, 3, 1), (2000, 1, 1), (1999, 12, 31), (1951, 1, 1),
+                             (2050, 12, 31), (2001, 1, 1), (2024, 2, 29), (2010, 12, 31), (1970, 1, 2), (2038, 1, 19), (2049, 2, 28)])
+        t0 = calendar.timegm((y, mo, d, 0, 0, 0)) - rng.pick([0, 0, 1, 5, 60, 3600, -1, -86399])
+        if y == 1951:
+            t0 = calendar.timegm((y, mo, d, 0, 0, 0)) + rng.pick([0, 1, 3600])     # 1950 would be written '50' = 2050 (outside the convention)
     rows = []
     for r in range(nrows):
         toks = []
@@ -106,5 +115,16 @@ def gen_model(rng, max_rows=30, big=False):
                  f'{rng.uniform(1, 9):.2f}e{rng.randrange(-5, 6)}'][k]
             toks.append(v)
         rows.append({'utim': t0 + r * rng.pick([1, 5, 60]), 'floats': toks})
+    # the two digit year convention (yr > 50 -> 19yy, else 20yy) covers 1951-01-01 .. 2050-12-31 only
+    import calendar as _cal
+    lo, hi = _cal.timegm((1951, 1, 1, 0, 0, 0)), _cal.timegm((2051, 1, 1, 0, 0, 0)) - 1
+    if rows:
+        shift = 0
+        if max(r['utim'] for r in rows) > hi:
+            shift = hi - max(r['utim'] for r in rows)
+        if min(r['utim'] for r in rows) + shift < lo:
+            shift = lo - min(r['utim'] for r in rows)
+        for r in rows:
+            r['utim'] += shift
     return {'decls': decls, 'header': header, 'header_sep': rng.pick([' ', '    ', '\t', ' \t ']), 'date_style': rng.pick(['A', 'B']),
             'rows': rows, 'row_sep': rng.pick([' ', '    ', '\t', '  \t']), 'trailing_newline': rng.chance(0.8)}
